@@ -77,9 +77,17 @@ func (kf *KnownFindings) witnessStillFails(eng *Eng, e *KnownFinding) bool {
 	if v, ok := kf.cache[e.Witness]; ok {
 		return v
 	}
-	res := runOverlayTest(eng.repo, filepath.Join(verifDir, e.Witness), e.WitnessPkg, e.WitnessRun, e.Race)
-	kf.cache[e.Witness] = res.failed
-	return res.failed
+	// a schedule-dependent witness (race detector) may need more than one run on a loaded machine
+	failed := false
+	for attempt := 0; attempt < 3 && !failed; attempt++ {
+		res := runOverlayTest(eng.repo, filepath.Join(verifDir, e.Witness), e.WitnessPkg, e.WitnessRun, e.Race)
+		failed = res.failed
+		if !e.Race {
+			break
+		}
+	}
+	kf.cache[e.Witness] = failed
+	return failed
 }
 
 type violationPath struct {
